@@ -56,6 +56,7 @@ func (c08) Thresholds(tier string) map[string]int64 {
 		"layout:filler:blank@between-headers":           100,
 		"layout:filler:blank@node-last":                 100,
 		"filler-inside-nested-body":                     500,
+		"k2-jumps":                                      1000,
 	}
 }
 
@@ -111,6 +112,15 @@ func resplit(p *hast.Program, r *core.Rand) *hast.Program {
 }
 
 func (p c08) Run(c *core.Ctx) {
+	p.jumpBlanks(c)
+	if c.Failed() {
+		// (a known finding does not stop the case; anything else does)
+		for _, v := range c.Res.Violations {
+			if v.Case == c.Idx && v.Known == "" {
+				return
+			}
+		}
+	}
 	r := c.R
 	cfg := gen.DefaultFlow()
 	cfg.MaxDepth = 6
@@ -223,6 +233,47 @@ func (p c08) Run(c *core.Ctx) {
 			c.Sample(map[string]any{"canonical": base, "variant": text, "dimensions": dims})
 		}
 	}
+}
+
+// jumpBlanks is the K2 sub-workload: more than one blank between <<jump and its target is layout
+// ("extra spaces inside commands"), but the lexer grammar has no white-space rule in that mode.
+func (c08) jumpBlanks(c *core.Ctx) {
+	r := c.R
+	sep := r.Pick("  ", "   ", " \t", "\t ", "    ")
+	target := r.Pick("Other", "{\"Other\"}")
+	mk := func(sep string) string {
+		return "title: Start\n---\nbefore\n<<jump" + sep + target + ">>\nnot reached\n===\ntitle: Other\n---\narrived\n===\n"
+	}
+	base, variant := mk(" "), mk(sep)
+	bt, err, pan := loadTree([]string{base})
+	if err != nil || pan != "" {
+		c.Violate("a jump written with one blank failed to load", map[string]any{"readers": []string{base}, "error": fmt.Sprint(err), "panic": pan})
+		return
+	}
+	c.Feature("k2-jumps")
+	vt, err, pan := loadTree([]string{variant})
+	switch {
+	case pan != "":
+		c.Violate("loading a jump written with several blanks panicked", map[string]any{"readers": []string{variant}, "panic": pan})
+	case err != nil:
+		c.ViolateKnown("K2", "a jump written with more than one blank after the keyword is refused as a syntax error", map[string]any{"readers": []string{variant}, "error": err.Error()})
+	case !reflect.DeepEqual(bt, vt):
+		c.ViolateKnown("K2", "a jump written with more than one blank after the keyword parses to a different dialogue", map[string]any{"canonical": base, "variant": variant})
+	}
+}
+
+// KnownRepro runs the reproducers of K2.
+func (c08) KnownRepro(f core.KnownFinding) (bool, error) {
+	for _, rep := range f.Reproducers {
+		_, err, pan := loadTree([]string{rep})
+		if pan != "" {
+			return false, fmt.Errorf("reproducer panics instead of failing as recorded: %s", pan)
+		}
+		if err != nil {
+			return true, nil
+		}
+	}
+	return false, nil
 }
 
 // treeDiff describes where two dialogues differ (node level).
